@@ -133,6 +133,92 @@ func (b *bcast[T]) WriteToStoreAndBroadcast(ctx context.Context, payload T) erro
 	return nil
 }
 
+// ---- signature payload providers ------------------------------------------------------------------
+
+// Provider returns the harness's id-th types.SignaturePayloadProvider (block.ManagerOptions): 0 is
+// types.DefaultSignaturePayloadProvider (the header's bytes); id > 0 signs a domain-separated digest of them, so
+// a signature made under one provider never verifies under another.
+func Provider(id int) types.SignaturePayloadProvider {
+	if id == 0 {
+		return types.DefaultSignaturePayloadProvider
+	}
+	tag := []byte(fmt.Sprintf("verif-c02-payload/%d/", id))
+	return func(h *types.Header) ([]byte, error) {
+		bz, err := h.MarshalBinary()
+		if err != nil {
+			return nil, err
+		}
+		sum := sha256.Sum256(append(append([]byte{}, tag...), bz...))
+		return sum[:], nil
+	}
+}
+
+// NumProviders: ids 0..NumProviders-1 exist (used when a signature is labelled with the provider it verifies under).
+const NumProviders = 3
+
+func managerOptions(id int) block.ManagerOptions {
+	o := block.DefaultManagerOptions()
+	o.SignaturePayloadProvider = Provider(id)
+	return o
+}
+
+// ---- transient store read faults -------------------------------------------------------------------
+
+var ErrTransientRead = fmt.Errorf("verif: transient store read error")
+
+// FaultStore is the store handed to the syncing Manager.  While armed, its k-th Height() call fails once
+// (ArmHeight(k), k >= 1) and / or its GetBlockData calls fail (ArmBlockData); every other call goes to the real store.
+// The harness reads the node's state through Node.Store (the real store), never through this wrapper.
+type FaultStore struct {
+	store.Store
+	mu      sync.Mutex
+	heightK int // fail the heightK-th Height() call from now (0: off)
+	heightN int // Height() calls seen since armed
+	blockG  bool
+	FiredH  bool // the Height() fault was delivered
+	FiredG  bool // a GetBlockData fault was delivered
+}
+
+func (f *FaultStore) Arm(k int, g bool) {
+	f.mu.Lock()
+	defer f.mu.Unlock()
+	f.heightK, f.heightN, f.blockG, f.FiredH, f.FiredG = k, 0, g, false, false
+}
+
+// Disarm switches the faults off and reports whether they were delivered.
+func (f *FaultStore) Disarm() (bool, bool) {
+	f.mu.Lock()
+	defer f.mu.Unlock()
+	f.heightK, f.blockG = 0, false
+	return f.FiredH, f.FiredG
+}
+
+func (f *FaultStore) Height(ctx context.Context) (uint64, error) {
+	f.mu.Lock()
+	if f.heightK > 0 {
+		f.heightN++
+		if f.heightN == f.heightK {
+			f.heightK = 0
+			f.FiredH = true
+			f.mu.Unlock()
+			return 0, ErrTransientRead
+		}
+	}
+	f.mu.Unlock()
+	return f.Store.Height(ctx)
+}
+
+func (f *FaultStore) GetBlockData(ctx context.Context, height uint64) (*types.SignedHeader, *types.Data, error) {
+	f.mu.Lock()
+	if f.blockG {
+		f.FiredG = true
+		f.mu.Unlock()
+		return nil, nil, ErrTransientRead
+	}
+	f.mu.Unlock()
+	return f.Store.GetBlockData(ctx, height)
+}
+
 // ---- the proposer's chain ----------------------------------------------------------------------
 
 const ChainID = "c02chain"
@@ -140,6 +226,7 @@ const ChainID = "c02chain"
 var GenesisTime = time.Unix(1_700_000_000, 0).UTC()
 
 type Chain struct {
+	Provider int // signature payload provider of the chain (aggregator and full nodes): see Provider
 	Genesis genesis.Genesis
 	Signer  signer.Signer
 	PubKey  crypto.PubKey
@@ -171,6 +258,11 @@ func baseConfig(rootDir string) config.Config {
 // Produce runs a real aggregator Manager for 1+len(batches) blocks (the first block of every chain is
 // the genesis block the aggregator saved at start-up) and reads the chain back from its store.
 func Produce(seed int64, initial uint64, batches []Batch, rootDir string) (*Chain, error) {
+	return ProduceP(seed, initial, batches, rootDir, 0)
+}
+
+// ProduceP: the aggregator signs with the prov-th signature payload provider (block.ManagerOptions).
+func ProduceP(seed int64, initial uint64, batches []Batch, rootDir string, prov int) (*Chain, error) {
 	ctx := context.Background()
 	var seedBytes [32]byte
 	binary.BigEndian.PutUint64(seedBytes[:], uint64(seed))
@@ -191,11 +283,11 @@ func Produce(seed int64, initial uint64, batches []Batch, rootDir string) (*Chai
 	ex := &Exec{}
 	sq := &Seq{Queue: append([]Batch{}, batches...)}
 	m, err := block.NewManager(ctx, sg, baseConfig(rootDir), gen, st, ex, sq, nil, quietLogger(), nil, nil,
-		&bcast[*types.SignedHeader]{}, &bcast[*types.Data]{}, block.NopMetrics(), 1, 1, block.DefaultManagerOptions())
+		&bcast[*types.SignedHeader]{}, &bcast[*types.Data]{}, block.NopMetrics(), 1, 1, managerOptions(prov))
 	if err != nil {
 		return nil, fmt.Errorf("aggregator NewManager: %w", err)
 	}
-	c := &Chain{Genesis: gen, Signer: sg, PubKey: pub, Initial: initial}
+	c := &Chain{Provider: prov, Genesis: gen, Signer: sg, PubKey: pub, Initial: initial}
 	for i := 0; i < 1+len(batches); i++ {
 		if err := m.VerifPublishBlock(ctx); err != nil {
 			return nil, fmt.Errorf("aggregator step %d: %w", i, err)
@@ -260,7 +352,8 @@ type Node struct {
 	Chain   *Chain
 	RootDir string
 	DS      *crashds.DS
-	Store   store.Store
+	Store   store.Store // the real store (observations)
+	FS      *FaultStore // what the Manager gets: Store behind the read-fault switch
 	Exec    *Exec // one log across restarts
 	M       *block.Manager
 	cancel  context.CancelFunc
@@ -330,10 +423,11 @@ func (n *Node) boot() {
 	} else {
 		n.Store = store.New(n.DS)
 	}
+	n.FS = &FaultStore{Store: n.Store}
 	ctx, cancel := context.WithCancel(context.Background())
 	n.cancel = cancel
-	m, err := block.NewManager(context.Background(), nil, baseConfig(n.RootDir), n.Chain.Genesis, n.Store, n.Exec, &Seq{}, n.DA, quietLogger(), n.HStore, n.DStore,
-		&bcast[*types.SignedHeader]{}, &bcast[*types.Data]{}, block.NopMetrics(), 1, 1, block.DefaultManagerOptions())
+	m, err := block.NewManager(context.Background(), nil, baseConfig(n.RootDir), n.Chain.Genesis, n.FS, n.Exec, &Seq{}, n.DA, quietLogger(), n.HStore, n.DStore,
+		&bcast[*types.SignedHeader]{}, &bcast[*types.Data]{}, block.NopMetrics(), 1, 1, managerOptions(n.Chain.Provider))
 	if err != nil {
 		n.BootErr = err
 		n.M = nil
@@ -371,22 +465,43 @@ func (n *Node) settle() {
 	}
 }
 
+// IngressHeader is the header object an ingress path hands to SyncLoop: a private copy (the loop mutates the
+// cached header; never share with the chain) with the node's signature payload provider attached, as both
+// ingress paths do before they send (block/retriever.go handlePotentialHeader, block/store.go HeaderStoreRetrieveLoop).
+func (n *Node) IngressHeader(h *types.SignedHeader) *types.SignedHeader {
+	cp := *h
+	cp.SetCustomVerifier(Provider(n.Chain.Provider))
+	return &cp
+}
+
 // DeliverHeader / DeliverData push one event into the running loop and wait until it is quiescent.
 func (n *Node) DeliverHeader(h *types.SignedHeader, da uint64) {
-	if n.M == nil {
-		return
-	}
-	cp := *h // the loop mutates the cached header (SetCustomVerifier); never share with the chain
-	n.M.VerifHeaderInCh() <- block.NewHeaderEvent{Header: &cp, DAHeight: da}
-	n.settle()
+	n.DeliverHeaderF(h, da, 0, false)
 }
 func (n *Node) DeliverData(d *types.Data, da uint64) {
+	n.DeliverDataF(d, da, 0, false)
+}
+
+// DeliverHeaderF / DeliverDataF: the same while the store's k-th Height() call fails (k = 0: none) and, if g, its
+// GetBlockData calls fail — transient read errors, the process lives on.  They report whether the faults were delivered.
+func (n *Node) DeliverHeaderF(h *types.SignedHeader, da uint64, k int, g bool) (bool, bool) {
 	if n.M == nil {
-		return
+		return false, false
+	}
+	n.FS.Arm(k, g)
+	n.M.VerifHeaderInCh() <- block.NewHeaderEvent{Header: n.IngressHeader(h), DAHeight: da}
+	n.settle()
+	return n.FS.Disarm()
+}
+func (n *Node) DeliverDataF(d *types.Data, da uint64, k int, g bool) (bool, bool) {
+	if n.M == nil {
+		return false, false
 	}
 	cp := *d
+	n.FS.Arm(k, g)
 	n.M.VerifDataInCh() <- block.NewDataEvent{Data: &cp, DAHeight: da}
 	n.settle()
+	return n.FS.Disarm()
 }
 
 // Stop cancels the loop and waits for it to return.
